@@ -49,7 +49,8 @@ def chunked(rnd, data):
 
 
 def recv_case(rnd, host, nblocks_sizes, corrupt):
-    """the library receives: ENQ + block bytes fed in arbitrary chunks, the peer waits for EOT / ACK as a real one does"""
+    """(delivered = handed to the application by the message_received event, whatever stream/function/body the message has)
+    the library receives: ENQ + block bytes fed in arbitrary chunks, the peer waits for EOT / ACK as a real one does"""
     rig = make_rig(host)
     try:
         msgs = [message(rnd, size, 100 + i) for i, size in enumerate(nblocks_sizes)]
@@ -78,9 +79,9 @@ def recv_case(rnd, host, nblocks_sizes, corrupt):
                 raise common.Wedged("no rest after the block")
             del start
         line = b"".join(rig.conn.sent)
-        delivered = len(rig.delivered)
-        intact = all(any(d.header.system == m.header.system and d.data == m.data and d.header.stream == m.header.stream and d.header.function == m.header.function for d in rig.delivered) for m in msgs) if corrupt is None else True
-        once = len({d.header.system for d in rig.delivered}) == len(rig.delivered)
+        delivered = len(rig.app_messages)
+        intact = all(any(d.header.system == m.header.system and d.data == m.data and d.header.stream == m.header.stream and d.header.function == m.header.function for d in rig.app_messages) for m in msgs) if corrupt is None else True
+        once = len({d.header.system for d in rig.app_messages}) == len(rig.app_messages)
         nvalid = len(blocks) if corrupt is None else 0
     finally:
         rig.stop()
@@ -111,7 +112,7 @@ def recv_len_case(rnd, host, size, new_len):
         if not rig.settle():
             raise common.Wedged("no rest after the block")
         line = b"".join(rig.conn.sent)
-        delivered = len(rig.delivered)
+        delivered = len(rig.app_messages)
     finally:
         rig.stop()
     raised = blk[0] > old
@@ -150,7 +151,7 @@ def retry_case(rnd, host, size, bad_block, pos):
         for blk in blocks:
             feed(blk)
         all_acked = all(a == bytes([EOT, ACK]).hex() for a in answers)
-        same = [d for d in rig.delivered if d.header.system == msg.header.system]
+        same = [d for d in rig.app_messages if d.header.system == msg.header.system]
         intact = len(same) == 1 and same[0].data == msg.data and (same[0].header.stream, same[0].header.function) == (msg.header.stream, msg.header.function)
     finally:
         rig.stop()
